@@ -55,10 +55,19 @@ def gen_sched(seed, tier):
     from .. import seams
     r = random.Random(seed)
     ncell = r.choice((2, 2, 3))
+    merge = r.random() < 0.5
     writer = []
     for _ in range(r.randint(1, 3)):
         writer.append({'steps': [['w', k] for k in
                                  r.sample(range(ncell), r.randint(2, ncell))]})
+        if merge:
+            # the undone transaction is not the latest one: the undo has
+            # to read the current state and merge
+            writer.append({'steps': [['w', k] for k in
+                                     r.sample(range(ncell),
+                                              r.randint(1, ncell))]})
+            writer.append({'t': 'undo', 'k': -2})
+            continue
         writer.append({'t': 'undo', 'k': -1})
         if r.random() < 0.3:
             writer.append({'t': 'undo', 'k': -1})       # undo the undo
@@ -70,19 +79,25 @@ def gen_sched(seed, tier):
             sc.append({'steps': [['r', k] for k in ks]})
         scripts.append(sc)
     sch = mvcc.sched_config(r)
+    # line-level pre-emption inside the MVCC adapter, or inside the file
+    # storage (the undo reads through the storage's own file handle, as do
+    # the bystanders' calls)
     sch['fine'] = {'p': r.choice((0.1, 0.3, 0.5)),
-                   'prefix': seams.repo_src() + '/ZODB/mvccadapter'}
+                   'prefix': seams.repo_src() + r.choice(
+                       ('/ZODB/mvccadapter', '/ZODB/FileStorage/'))}
     return {'arm': 'sched', 'kind': 'file', 'ncell': ncell,
             'cache_size': 400, 'pool_size': 7,
             'bufsize': r.choice((64, 8192)),
-            'classes': ['Cell'] * ncell,
+            # bystanders asking the storage itself (its own file handle)
+            'pokers': mvcc.gen_pokers(r, ncell) if r.random() < 0.7 else [],
+            'classes': ['Merge' if merge else 'Cell'] * ncell,
             'explicit': [r.random() < 0.3 for _ in scripts],
             'sched': sch, 'tick': 0.37, 'tier': tier, 'scripts': scripts}
 
 
 def gen(seed, tier):
     r = random.Random(seed)
-    if r.random() < 0.06:
+    if r.random() < 0.1:
         return gen_sched(ctx.subseed(seed, 'sched'), tier)
     arm = 'db' if r.random() < 0.25 else 'storage'
     if arm == 'db':
